@@ -140,12 +140,12 @@ NOTES = {
 
 # seeded changes that no longer manifest on /repo HEAD: their own demonstration passes with the change applied
 SUPERSEDED = {
+    "C19-M8": "no longer manifests on /repo HEAD: repair 022d5cc hands out every waiter of the channels a prompt entry used when the entry ends, which also removes the registration the entry's own fiber left behind, so no later wake-up scan finds a dead entry; the agent's demonstration passes with the change applied on 022d5cc and on HEAD and fails on 022d5cc^ (re-confirmed in a scratch worktree: the change was written and first confirmed on the tree before that repair)",
     "C07-M6": "no longer manifests on /repo HEAD: repair 47a4cd1 (the queue releases the sender whose value was taken and drops its other registrations) removes the stale registrations this change needs; the agent's demonstration passes with the change applied. It was caught by C08 (spurious deadlock, stale-sender pattern) on the tree it was written against",
     "C10-M6": "no longer manifests on /repo HEAD: repair fb184ed makes natives hand out the current block of a list, so the 'born forwarded' searched value this change needs does not exist any more; the agent's demonstration passes with the change applied",
     "C19-M9": "no longer manifests on /repo HEAD: repair 022d5cc hands out every runnable waiter when a prompt entry ends, so the waiter this change drops is already queued; the agent's demonstration passes with the change applied",
 }
 NOT_CAUGHT_REASON = {
-    "C19-M8": "needs a channel closed by a fiber that never used it (the zone of the pinned finding C08-close-by-non-user); a registration left behind by a returned prompt entry was not reached by any generated session",
 }
 
 
